@@ -21,9 +21,9 @@ var ErrNoScript error = errors.New("no script file present")
 
 // Host of Lua extensions.
 type Host struct {
-	extHost    *extension.Host
-	pool       *statePool
-	logContext zerolog.Context
+	extHost *extension.Host
+	pool    *statePool
+	logger  zerolog.Logger // Base logger; each hook call derives its own context from it.
 }
 
 // New constructs a new Lua Host, pre-compiling the source.
@@ -71,7 +71,7 @@ func NewFromReader(logger zerolog.Logger, extHost *extension.Host, r io.Reader, 
 
 	// Build the pool and confirm LState is retrievable.
 	pool := newStatePool(logger, proto)
-	h := &Host{extHost: extHost, pool: pool, logContext: logger.With()}
+	h := &Host{extHost: extHost, pool: pool, logger: logger}
 	if ls, err := pool.getState(); err == nil {
 		h.wireFunctions(startLogger, ls)
 
@@ -241,7 +241,9 @@ func (h *Host) handleBeforeMessageStored(msg event.InboundMessage) *event.Inboun
 
 // Common preparation for calling Lua functions.
 func (h *Host) prepareInbucketFuncCall(funcName string) (logger zerolog.Logger, ls *lua.LState, ib *Inbucket, ok bool) {
-	logger = h.logContext.Str("event", funcName).Logger()
+	// With() copies the context buffer; a shared zerolog.Context would be appended to by every
+	// concurrent hook call.
+	logger = h.logger.With().Str("event", funcName).Logger()
 
 	ls, err := h.pool.getState()
 	if err != nil {
